@@ -9,6 +9,7 @@
 package conc
 
 import (
+	"errors"
 	"fmt"
 	"os"
 	"sort"
@@ -179,6 +180,9 @@ func Execute(p Program, choose sched.Chooser) (*Result, error) {
 	return pe.Finish(pe.S.Run(choose)), nil
 }
 
+// ErrHang: a call of the sequential reference run did not return.
+var ErrHang = errors.New("call does not return")
+
 // Sequential returns the set of keys (outcomes + final tree) of every
 // interleaving of the workers' calls that respects program order, each run
 // sequentially on a fresh instance: the specification of C06.
@@ -202,12 +206,18 @@ func Sequential(p Program) (map[string]bool, error) {
 			for i := range runners {
 				runners[i] = fsx.NewRunner(in.Views[i])
 				runners[i].NoOwner = true
-				runners[i].Guard = 0
+				// no scheduler is active here: a call that blocks on its own is a C07 matter,
+				// and the guard keeps it from wedging this check
+				runners[i].Guard = fsx.DefaultGuard
 				outs[i] = make([]string, len(p.Workers[i]))
 			}
 			pos := make([]int, len(p.Workers))
 			for _, w := range order {
-				outs[w][pos[w]] = runners[w].Do(p.Workers[w][pos[w]]).String()
+				out := runners[w].Do(p.Workers[w][pos[w]])
+				if out.Err == "HANG" {
+					return fmt.Errorf("%w: %s %s run alone (order %v of %s)", ErrHang, p.FS, p.Workers[w][pos[w]], order, p)
+				}
+				outs[w][pos[w]] = out.String()
 				pos[w]++
 			}
 			r := &Result{Outcomes: outs, Snap: in.Snapshot()}
